@@ -78,6 +78,16 @@ Print Assumptions C13_prop_of_model_cluster_table.
 Example C13_documented_inhabited : documented w_doc_adv = true /\ accepted w_doc_adv = true /\ closed_full w_doc_adv = true.
 Proof. exact doc_inhabited. Qed.
 
+(* A JSON null (or a missing object) at any pointer position of host_rule.data -- Version, Hosts, HostTags, the host list
+   of a host-tag, the tag list of a product -- makes HostRuleConfLoad return an error, whatever the other sections
+   contain (in particular when Hosts is empty, so that no per-host loop runs). *)
+Theorem C13_host_null_rejected : forall f,
+  hf_version f = None \/ hf_hosts f = None \/ hf_tags f = None
+  \/ (exists t, In (t, None) (olist (hf_hosts f))) \/ (exists p, In (p, None) (olist (hf_tags f))) ->
+  host_conf_load f = None.
+Proof. exact host_null_rejected. Qed.
+Print Assumptions C13_host_null_rejected.
+
 (* Central theorem: on every well-formed input (a decodable record of one of the three modelled operations -- what the
    generators emit) outside the finding class, the model's output satisfies the executable property the harness evaluates
    on the implementation's observations. *)
